@@ -48,7 +48,9 @@ def spawn(src, pkg, store, mode, order, hashseed, trace=None):
 def run_case(case):
     out = {"viol": [], "nontrivial": [], "obs": collections.Counter(), "sets": {"features": set()}}
     rng = core.rng_for(case["seed"], ID, case["idx"])
-    prog = progs.gen_program(rng, "vp3_%d_%d" % (case["seed"], case["idx"]), n=rng.randint(4, 7), p_explicit=0.1)
+    # (two of three programs carry two helpers made by one factory: one code object, different defaults)
+    prog = progs.gen_program(rng, "vp3_%d_%d" % (case["seed"], case["idx"]), n=rng.randint(4, 7), p_explicit=0.1,
+                             p_factory=1.0 if case["idx"] % 3 else 0.3)
     # every program carries at least one set constant (the hash-seed sensitive feature)
     if not any(nd["sconst"] for nd in prog["nodes"]):
         prog["nodes"][0]["sconst"] = ["alpha", "beta", "gamma", "delta"]
